@@ -2,6 +2,7 @@ package props
 
 import (
 	"bytes"
+	"errors"
 	"fmt"
 	"io"
 	"log"
@@ -9,6 +10,7 @@ import (
 	"os"
 	"path/filepath"
 	"strings"
+	"sync"
 
 	"go.uber.org/zap"
 	"go.uber.org/zap/zapcore"
@@ -361,7 +363,7 @@ func c19build(w *c19world) {
 	c, g := w.c, w.c.G
 	outs := w.draw(g.Draw(4))
 	errs := w.draw(g.Draw(4))
-	defect := g.Weighted(4, 2, 2, 2)
+	defect := g.Weighted(4, 2, 2, 2, 2)
 	if defect == 0 {
 		// a successful Build keeps its files open for good (zap offers no way
 		// to close them); to keep descriptor counts meaningful across runs,
@@ -413,9 +415,18 @@ func c19build(w *c19world) {
 	case 3:
 		cfg.Level = zap.AtomicLevel{}
 		c.Fault("config-defect")
+	case 4:
+		// a registered encoder whose constructor reports an error
+		c19failingEncoder.Do(func() {
+			_ = zap.RegisterEncoder("zsim-failing-encoder", func(zapcore.EncoderConfig) (zapcore.Encoder, error) {
+				return nil, errors.New("injected encoder constructor failure")
+			})
+		})
+		cfg.Encoding = "zsim-failing-encoder"
+		c.Fault("config-defect")
 	}
 	c.MixState(uint64(defect) << 20)
-	c.Describe("member=build outputs=%s error-outputs=%s defect=%s", describeTargets(outs), describeTargets(errs), []string{"none", "unknown-encoding", "time-key-without-encoder", "zero-level"}[defect])
+	c.Describe("member=build outputs=%s error-outputs=%s defect=%s", describeTargets(outs), describeTargets(errs), []string{"none", "unknown-encoding", "time-key-without-encoder", "zero-level", "encoder-constructor-fails"}[defect])
 	c.Nontrivial = !allOK || defect != 0
 	all := append(append([]*c19target{}, outs...), errs...)
 	fd0 := 0
@@ -526,6 +537,8 @@ func c19redirect(w *c19world) {
 }
 
 var c19regCounter int
+
+var c19failingEncoder sync.Once
 
 func c19register(w *c19world) {
 	c, g := w.c, w.c.G
